@@ -61,7 +61,14 @@ pub(super) fn load_workbook<R: Read + std::io::Seek>(
         let sheet_id = match node.attribute("localSheetId") {
             Some(s) => {
                 let index = s.parse::<usize>()?;
-                Some(sheets[index].sheet_id)
+                Some(
+                    sheets
+                        .get(index)
+                        .ok_or_else(|| {
+                            XlsxError::Xml(format!("Invalid localSheetId '{index}' in defined name"))
+                        })?
+                        .sheet_id,
+                )
             }
             None => None,
         };
